@@ -579,6 +579,21 @@ func run(e *core.Env) {
 				}
 			}
 
+			// Wave 16: one more forged splice per announcement, always handed over together with
+			// the genuine announcement its foreign records were taken from (see rejectBurst).
+			if depth > 0 && len(foreignChains) >= 2 && tp.Chance(1, 2) {
+				oi := tp.Intn(len(foreignChains))
+				other := foreignChains[oi]
+				if foreignOrigin[oi] != origin && !bytes.Equal(foreignCtx[oi], ctx) && !(len(other) > 0 && bytes.Equal(other[0].raw, ls[0].raw)) {
+					j := tp.Intn(depth)
+					cp := append(append([]layer(nil), ls[:j+1]...), other...)
+					if j == 0 {
+						cp = append([]layer{ls[0]}, other...)
+					}
+					rejectBurst("splice from another announcement, side by side with that announcement", lPV, withAppendix(parser, orig, encodeChain(cp, ctx, pKey)), foreignRaw[oi], origin, depth)
+				}
+			}
+
 			// ---- honest delivery ----
 			before := V.Router.Table().VerifEntries()
 			burst := false
